@@ -44,6 +44,7 @@ type TierCfg struct {
 	Preempt       *int           `json:"preempt"`
 	SolverTimeout int            `json:"solver_timeout_ms"`
 	Skip          bool           `json:"skip"`
+	FixedSchedule bool           `json:"fixed_schedule"`
 }
 
 type Entry struct {
@@ -55,6 +56,7 @@ type Entry struct {
 	Models  map[string]string  `json:"models"`
 	Watch   map[string]string  `json:"watch"`
 	Timeout int                `json:"replay_timeout_s"`
+	Replay  string             `json:"replay"`  // "engine": confirm counterexamples by re-executing their decision trace in the engine
 	Package string             `json:"package"` // overrides the spec's package for this entry
 	Dir     string             `json:"dir"`
 }
@@ -219,6 +221,7 @@ func boundsFor(t TierCfg) interp.Bounds {
 	if t.SolverTimeout > 0 {
 		b.SolverTimeout = t.SolverTimeout
 	}
+	b.FixedSchedule = t.FixedSchedule
 	return b
 }
 
@@ -391,10 +394,27 @@ func cmdCheck(args []string) int {
 			rp := filepath.Join(verifDir, "replays", spec.Property, fmt.Sprintf("%s-%d.json", e.Name, n))
 			os.MkdirAll(filepath.Dir(rp), 0o755)
 			writeJSON(rp, map[string]interface{}{"property": spec.Property, "entry": e.Name, "kind": v.Kind, "label": v.Label, "msg": v.Msg,
-				"inputs": v.Inputs, "params": tc.Params, "stack": v.Stack, "events": v.Events})
+				"inputs": v.Inputs, "params": tc.Params, "stack": v.Stack, "events": v.Events, "trace": v.TraceOf(), "tier": *tier})
 			vo.Replay = rp
 			confirmed := true
-			if !*noReplay {
+			if !*noReplay && e.Replay == "engine" {
+				rcfg := cfg
+				rcfg.ReplayTrace = v.TraceOf()
+				rex, rerr := prog.Explore(rcfg)
+				confirmed = false
+				if rerr == nil {
+					for _, rv := range rex.Violations {
+						if rv.Kind == v.Kind && rv.Label == v.Label {
+							confirmed = true
+						}
+					}
+				}
+				if confirmed {
+					vo.Replayed = "reproduced by deterministic re-execution of the recorded decision and schedule trace in the engine (native replay cannot force this schedule)"
+				} else {
+					vo.Replayed = "NOT reproduced by engine re-execution of the trace"
+				}
+			} else if !*noReplay {
 				ok, out := nativeReplay(spec, dir, e, rp, v.Kind, v.Label)
 				if ok {
 					vo.Replayed = "reproduced natively"
@@ -683,18 +703,58 @@ func cmdReplay(args []string) int {
 		fmt.Fprintln(os.Stderr, "error:", err)
 		return 2
 	}
+	if abs, err := filepath.Abs(*path); err == nil {
+		*path = abs
+	}
 	b, err := os.ReadFile(*path)
 	if err != nil {
 		fmt.Fprintln(os.Stderr, "error:", err)
 		return 2
 	}
 	var rf struct {
-		Entry string `json:"entry"`
-		Kind  string `json:"kind"`
-		Label string `json:"label"`
+		Entry  string         `json:"entry"`
+		Kind   string         `json:"kind"`
+		Label  string         `json:"label"`
+		Trace  [][3]uint64    `json:"trace"`
+		Params map[string]int `json:"params"`
+		Tier   string         `json:"tier"`
 	}
 	json.Unmarshal(b, &rf)
 	for _, e := range spec.Entries {
+		if e.Name == rf.Entry && e.Replay == "engine" {
+			ovPaths, _ := overlayFiles(spec, dir, false)
+			ov, err := readOverlay(ovPaths)
+			if err != nil {
+				fmt.Fprintln(os.Stderr, "error:", err)
+				return 2
+			}
+			prog, err := interp.Load(interp.LoadConfig{Dir: repoDir, Overlay: ov, Patterns: append([]string{"./" + spec.Dir}, spec.Patterns...), Tags: "verif"})
+			if err != nil {
+				fmt.Fprintln(os.Stderr, "error:", err)
+				return 2
+			}
+			tc := e.Tiers[rf.Tier]
+			pkgPath := spec.Package
+			if e.Package != "" {
+				pkgPath = e.Package
+			}
+			cfg := interp.ExploreConfig{PkgPath: pkgPath, Entry: e.Name, Bounds: boundsFor(tc), Workers: 1, Solver: "z3", InitExtra: spec.InitExtra,
+				InitSkip: spec.InitSkip, Models: spec.Models, Params: rf.Params, Watch: e.Watch, ReplayTrace: rf.Trace}
+			ex, err := prog.Explore(cfg)
+			if err != nil {
+				fmt.Fprintln(os.Stderr, "error:", err)
+				return 2
+			}
+			for _, v := range ex.Violations {
+				if v.Kind == rf.Kind && v.Label == rf.Label {
+					fmt.Printf("engine re-execution of the recorded trace: %s %s %s\n", v.Kind, v.Label, v.Msg)
+					fmt.Printf("VIOLATION property=%s replay=%s\n", spec.Property, *path)
+					return 1
+				}
+			}
+			fmt.Println("not reproduced")
+			return 0
+		}
 		if e.Name == rf.Entry {
 			ok, out := nativeReplay(spec, dir, e, *path, rf.Kind, rf.Label)
 			fmt.Println(out)
